@@ -8,6 +8,15 @@
 //! unseen-ness and fails once every sender is gone; `Sender::closed().await` completes when the
 //! last receiver is gone.  "Outstanding borrows hold a read lock on the inner value": a send waits
 //! for borrows in progress and vice versa (first come first served).
+//! `send_modify` / `send_replace` are `send` without the receiver-count check; `wait_for(f)` looks at
+//! the current value first (even if seen), then at every change, and fails once the channel is closed
+//! and the last value did not satisfy `f`.
+//!
+//! Cancel safety (tokio: `changed`, `wait_for`, `closed` are cancel safe): a task aborted inside one
+//! of them — or a `changed()` dropped by an expired `time::timeout` — leaves no request behind and
+//! marks nothing seen; the aborted task's own handle is dropped with its future (last receiver gone ⇒
+//! `closed()` completes and `send` is refused; last sender gone ⇒ the channel closes and every
+//! `changed()` wakes), the wake-ups being scheduling steps of the cancelled task's destructor.
 
 use crate::driver::XFamily;
 use crate::fam_lock::{Acq, FairSem};
